@@ -2172,6 +2172,10 @@ class ResetIndex(Elemwise):
                 # replace the projection of the former index with the actual index
                 subs = Projection(self, name)
                 predicate = parent.predicate.substitute(subs, Index(self.frame))
+                if self.frame.ndim == 1 and not self.operand("drop"):
+                    # the values of the Series became a column as well
+                    subs = Projection(self, self.frame._meta.name)
+                    predicate = predicate.substitute(subs, self.frame)
             elif self.frame.ndim == 1 and not self.operand("drop"):
                 name = self.frame._meta.name
                 # Avoid Projection since we are already a Series
